@@ -82,7 +82,7 @@ def _samples_setitem(ex, path, base, key, value, node):
     return o
 
 
-def _samples_getitem(ex, path, key, node):
+def _samples_getitem(ex, path, recv, key, node):
     raise Unsupported("samples[...] read")
 
 
